@@ -111,7 +111,7 @@ def gen_case(rng, tier):
         if dst == nvar:
             bound.append(nvar)
             nvar += 1
-    return dict(stream="objective", leaves=leaves, prog=prog, seed=rng.randrange(1 << 30))
+    return dict(stream="objective", leaves=leaves, prog=prog, seed=rng.randrange(1 << 30), eager_compile=rng.random() < 0.5)
 
 
 def gen_param_case(rng, tier):
@@ -190,6 +190,10 @@ def run_objective(case):
             env[st[1]] = env[st[2]] * st[3]
         elif st[0] == "rmul":
             env[st[1]] = st[3] * env[st[2]]
+        if case.get("eager_compile"):
+            # history: every object is compiled (as optimize() / maco() would) as soon as it exists, BEFORE it is used as an
+            # operand; compile is an observation — the model's compiled loss is a function of the object alone
+            env[st[1]].compile()
     rs = np.random.RandomState(case["seed"] % (1 << 31))
     res = dict(vars={})
     for v in sorted(env):
